@@ -16,7 +16,9 @@ ID = "C17"
 RULE = ("registrations of 0..4 handlers for one event kind, each with a language set (list/str/set spellings), a "
         "return value in {None,0,1,2,3,4,8} (a zero-returning handler in two variants: leaves out_data alone / writes "
         "it) and a payload-appending body; event language in {python, java, go}; event kinds = the three registered "
-        "kinds without default handlers, plus one unregistered kind. Enumerated exhaustively per space (see "
+        "kinds without default handlers, plus one unregistered kind; in the 'shared' spaces (and half of the sampled "
+        "cases) registrations with the same return behaviour register the same function object again (each registration "
+        "still counts: it runs once per matching registration, at its own position). Enumerated exhaustively per space (see "
         "coverage.spaces). Non-trivial = at least two handlers match the event language and at least one of the "
         "matching handlers returns a blocking, zero or None value; cases are distinct by construction.")
 
@@ -51,8 +53,17 @@ def lang_set(v):
     return set(v)
 
 
-def model(handlers, event_lang, known_kind):
-    """handlers: list of (langs value, ret).  -> (ran: [(index, payload seen)], result flags, final out payload)"""
+def fid(handlers, i, share):
+    """identity of the callable of registration i: with `share`, registrations with the same return behaviour are the SAME
+    function object registered again (a plugin loaded twice, one handler registered per language); it is named by the
+    first registration that uses it"""
+    if not share:
+        return i
+    return next(j for j in range(i + 1) if handlers[j][1] == handlers[i][1])
+
+
+def model(handlers, event_lang, known_kind, share=False):
+    """handlers: list of (langs value, ret).  -> (ran: [(callable id, payload seen)], result flags, final out payload)"""
     payload = []
     out = payload
     ran = []
@@ -63,11 +74,11 @@ def model(handlers, event_lang, known_kind):
         ls = lang_set(langs)
         if not (event_lang in ls or "%" in ls):
             continue
-        ran.append((i, list(payload)))
+        ran.append((fid(handlers, i, share), list(payload)))
         writes = ret == "0w" or (ret not in (None, 0))
         r = 0 if ret == "0w" else ret
         if writes:
-            out = payload + [i]
+            out = payload + [fid(handlers, i, share)]
         if r is not None:
             if r != 0:
                 result |= 1
@@ -91,9 +102,10 @@ class Env:
                             EVENT_KIND.P2STATE_EXTERN_CALLEE]
         self.unknown_kind = EVENT_KIND.ENTRY_POINT_ANALYSIS_BEFORE
 
-    def run_case(self, handlers, event_lang, kind):
+    def run_case(self, handlers, event_lang, kind, share=False):
         em = self.EventManager(self.options)
         ran = []
+        made = {}
 
         def mk(i, ret):
             writes = ret == "0w" or (ret not in (None, 0))
@@ -112,15 +124,18 @@ class Env:
                 v = list(v)
             elif isinstance(v, set):
                 v = set(v)
-            em.register(kind, mk(i, ret), v)
+            f = fid(handlers, i, share)
+            if f not in made:
+                made[f] = mk(f, ret)
+            em.register(kind, made[f], v)
         data = self.EventData(event_lang, kind, [])
         res = em.notify(data)
         return ran, res, list(data.out_data)
 
 
-def compare(env, handlers, event_lang, kind, known):
-    exp_ran, exp_res, exp_out = model(handlers, event_lang, known)
-    ran, res, out = env.run_case(handlers, event_lang, kind)
+def compare(env, handlers, event_lang, kind, known, share=False):
+    exp_ran, exp_res, exp_out = model(handlers, event_lang, known, share)
+    ran, res, out = env.run_case(handlers, event_lang, kind, share)
     if [i for i, _ in ran] != [i for i, _ in exp_ran]:
         got = [i for i, _ in ran]
         exp = [i for i, _ in exp_ran]
@@ -147,8 +162,8 @@ def nontrivial(handlers, event_lang):
     return len(m) >= 2 and any(r in (None, 0, "0w", 2, 3) for _, r in m)
 
 
-def jcase(handlers, event_lang, kind_name):
-    return {"kind": "registration",
+def jcase(handlers, event_lang, kind_name, share=False):
+    return {"kind": "registration", "same_callable_for_equal_returns": share,
             "handlers": [{"langs": sorted(l) if isinstance(l, set) else l, "langs_type": type(l).__name__, "returns": r} for l, r in handlers],
             "event_lang": event_lang, "event_kind": kind_name}
 
@@ -160,14 +175,15 @@ def from_jcase(case):
         if h["langs_type"] == "set":
             l = set(l)
         hs.append((l, h["returns"]))
-    return hs, case["event_lang"], case["event_kind"]
+    return hs, case["event_lang"], case["event_kind"], bool(case.get("same_callable_for_equal_returns"))
 
 
 def enum_shard(arg):
     space, n, first_choices = arg
     env = Env()
     col = Collector()
-    langs = LANG_BASIC if space == "basic" else LANG_FORMS
+    langs = LANG_FORMS if space == "forms" else LANG_BASIC
+    share = space == "shared"
     choices = [(l, r) for _, l in langs for r in RETURNS]
     idx = 0
     firsts = first_choices if n > 0 else [None]
@@ -178,14 +194,18 @@ def enum_shard(arg):
             for el in EVENT_LANGS:
                 idx += 1
                 kind = env.known_kinds[idx % 3]
-                d = compare(env, handlers, el, kind, True)
+                if share and len({r for _, r in handlers}) == len(handlers):
+                    continue        # no callable registered twice: the case is in the "basic" space already
+                d = compare(env, handlers, el, kind, True, share)
                 col.evaluations += 1
                 if nontrivial(handlers, el):
                     col.nontrivial_enum += 1
+                if share:
+                    col.label("same_callable_registered_again")
                 if d:
-                    col.discrepancy(d[0], d[1], jcase(handlers, el, env.K[kind]))
+                    col.discrepancy(d[0] + (("same-callable-registered-again",) if share else ()), d[1], jcase(handlers, el, env.K[kind], share))
                 if idx % 40009 == 1 and n >= 2:
-                    col.sample(jcase(handlers, el, env.K[kind]))
+                    col.sample(jcase(handlers, el, env.K[kind], share))
     col.extra["enumerated:%s:%d-handlers" % (space, n)] += col.evaluations
     return col
 
@@ -219,17 +239,21 @@ def sample_shard(arg):
     @hypothesis.seed(seed)
     @settings(max_examples=n_examples, deadline=None, database=None, derandomize=False, report_multiple_bugs=False,
               suppress_health_check=list(HealthCheck), phases=[hypothesis.Phase.generate])
-    @hypothesis.given(st.lists(st.sampled_from(choices), min_size=4, max_size=6), st.sampled_from(EVENT_LANGS), st.integers(0, 2))
-    def prop(handlers, el, k):
+    @hypothesis.given(st.lists(st.sampled_from(choices), min_size=4, max_size=6), st.sampled_from(EVENT_LANGS), st.integers(0, 2),
+                      st.booleans())
+    def prop(handlers, el, k, share):
         kind = env.known_kinds[k]
-        d = compare(env, handlers, el, kind, True)
+        share = share and len({r for _, r in handlers}) < len(handlers)
+        d = compare(env, handlers, el, kind, True, share)
         col.evaluations += 1
-        c = jcase(handlers, el, env.K[kind])
+        c = jcase(handlers, el, env.K[kind], share)
+        if share:
+            col.label("same_callable_registered_again")
         if nontrivial(handlers, el):
             col.nontriv(c)
         col.label("sampled:%d-handlers" % len(handlers))
         if d:
-            col.discrepancy(d[0], d[1], c)
+            col.discrepancy(d[0] + (("same-callable-registered-again",) if share else ()), d[1], c)
     prop()
     return col
 
@@ -337,12 +361,12 @@ def check_case(case):
             return sig, b["what"]
         return None
     env = Env()
-    handlers, el, kind_name = from_jcase(case)
+    handlers, el, kind_name, share = from_jcase(case)
     kind = env.K.map(kind_name)
     known = kind in env.known_kinds
     import io, contextlib
     with contextlib.redirect_stdout(io.StringIO()), contextlib.redirect_stderr(io.StringIO()):
-        d = compare(env, handlers, el, kind, known)
+        d = compare(env, handlers, el, kind, known, share)
     if d and not known:
         d = (d[0] + ("unknown-kind",), d[1])
     return d
@@ -374,16 +398,21 @@ def main(tier, seed, t0):
             col.discrepancy(d[0], d[1], rec["case"])
     default_table(col)
     if tier == "quick":
-        plan = [("basic", 0), ("basic", 1), ("basic", 2), ("basic", 3), ("forms", 2)]
+        plan = [("basic", 0), ("basic", 1), ("basic", 2), ("basic", 3), ("forms", 2), ("shared", 2), ("shared", 3)]
         sampled = 20000
     else:
-        plan = [("basic", 0), ("basic", 1), ("basic", 2), ("basic", 3), ("basic", 4), ("forms", 2), ("forms", 3)]
+        plan = [("basic", 0), ("basic", 1), ("basic", 2), ("basic", 3), ("basic", 4), ("forms", 2), ("forms", 3),
+                ("shared", 2), ("shared", 3), ("shared", 4)]
         sampled = 200000
     args = []
     spaces = {}
     for space, n in plan:
-        nchoices = (len(LANG_BASIC) if space == "basic" else len(LANG_FORMS)) * len(RETURNS)
+        nchoices = (len(LANG_FORMS) if space == "forms" else len(LANG_BASIC)) * len(RETURNS)
         spaces["%s/%d-handlers" % (space, n)] = {"choices_per_handler": nchoices, "cases": (nchoices ** n) * len(EVENT_LANGS)}
+        if space == "shared":
+            import math
+            spaces["%s/%d-handlers" % (space, n)]["cases"] -= (len(LANG_BASIC) ** n) * math.perm(len(RETURNS), n) * len(EVENT_LANGS)
+            spaces["%s/%d-handlers" % (space, n)]["note"] = "registrations with equal return behaviour register the SAME function object again; only cases with a repeat"
         if n == 0:
             args.append((space, 0, [0]))
             continue
